@@ -45,7 +45,7 @@ ID = "C14"
 LEVEL = "exploration"
 RULE = (
     "part 1: definitions = 1-2 declared fields from {forTypes[int], forTypes[str,None], forTypes[list], "
-    "forTypes[dict], forValue, serializer+extraValidator}; message kinds = {MessageType, ActionType "
+    "forTypes[dict], forValue, serializer+extraValidator, forTypes with an extra validator}; plus all histories of <= 4 MemoryLogger operations {valid message, invalid message, validate, reset, traceback, flush}; message kinds = {MessageType, ActionType "
     "start, success, failure (with extractor fields), eliot:traceback (with extractor fields), untyped}; "
     "deviations (one at a time, at every applicable field) = {missing, extra field named extra / reason "
     "/ exception / message_type / action_status / task_uuid2, wrong type, validator-rejected, forValue "
@@ -63,6 +63,11 @@ class Rejected(object):
     pass
 
 
+def nonempty(v):
+    if not len(v):
+        raise ValidationError(v, "must not be empty")
+
+
 def even_only(v):
     if v % 2:
         raise ValidationError(v, "must be even")
@@ -75,6 +80,9 @@ FIELD_KINDS = [
     ("dict", lambda k: Field.for_types(k, [dict], ""), {"a": [1]}, [1]),
     ("value", lambda k: Field.for_value(k, "fixed", ""), "fixed", "other"),
     ("validated", lambda k: Field(k, lambda v: v * 2, "", even_only), 6, 7),
+    # typed AND extra validator: a wrong-typed value the validator itself tolerates
+    ("int+validator", lambda k: Field.for_types(k, [int], "", lambda v: None), 8, "8"),
+    ("list+validator", lambda k: Field.for_types(k, [list], "", nonempty), [1], "x"),
 ]
 EXTRA_NAMES = ["extra", "reason", "exception", "message_type", "action_status", "task_uuid2", "action_type"]
 KINDS = ["message", "start", "success", "failure", "traceback", "untyped"]
@@ -101,7 +109,59 @@ def definitions(tier="quick"):
 
 
 def units(tier):
-    return [["def", d] for d in definitions(tier)] + [["tests"]]
+    return [["def", d] for d in definitions(tier)] + [["tests"], ["histories"]]
+
+
+HIST_OPS = ["good", "bad", "validate", "reset", "tb", "flush"]
+
+
+def run_history(ops):
+    """A sequence of MemoryLogger operations; the final check_for_errors must raise exactly when an
+    invalid message or an unflushed traceback was logged after the last reset()."""
+    T = MessageType("c14:h", [Field.for_types("n", [int], "")], "")
+
+    def go():
+        logger = MemoryLogger()
+        bad = tbs = False
+        for op in ops:
+            if op == "good":
+                logger.write({"message_type": "c14:h", "n": 1, "task_uuid": "u", "task_level": [1], "timestamp": 1.0}, T._serializer)
+            elif op == "bad":
+                logger.write({"message_type": "c14:h", "n": "x", "task_uuid": "u", "task_level": [1], "timestamp": 1.0}, T._serializer)
+                bad = True
+            elif op == "validate":
+                try:
+                    logger.validate()
+                    if bad:
+                        return "validate-accepted-invalid-message-midway", None
+                except (ValidationError, TypeError):
+                    if not bad:
+                        return "validate-rejected-valid-messages-midway", None
+            elif op == "reset":
+                logger.reset()
+                bad = tbs = False
+            elif op == "tb":
+                try:
+                    raise AppError("h")
+                except AppError:
+                    write_traceback(logger)
+                tbs = True
+            elif op == "flush":
+                logger.flush_tracebacks(AppError)
+                tbs = False
+        try:
+            check_for_errors(logger)
+            got = "accepted"
+        except UnflushedTracebacks:
+            got = "unflushed"
+        except (ValidationError, TypeError):
+            got = "invalid"
+        want = "unflushed" if tbs else ("invalid" if bad else "accepted")
+        return None if got == want else "history:%s-instead-of-%s" % (got, want), (got, want)
+
+    sig, detail = world.run_isolated(go)
+    viol = [(sig, {"ops": ops, "got_want": detail})] if sig else []
+    return Result(outcome=[ops, sig], nontrivial=len(ops) > 1, violations=viol)
 
 
 def deviations(defn, kind):
@@ -131,6 +191,16 @@ def deviations(defn, kind):
 
 
 def cases(unit, tier):
+    if unit[0] == "histories":
+        for n in (1, 2, 3, 4) if tier == "quick" else (1, 2, 3, 4, 5):
+            for seq in itertools.product(HIST_OPS, repeat=n):
+                # validate() serializes the stored messages in place (documented side effect), so it
+                # is not meant to be run twice over the same messages: a validate() inside a history
+                # is always followed by reset()
+                if any(op == "validate" and (i + 1 >= len(seq) or seq[i + 1] != "reset") for i, op in enumerate(seq)):
+                    continue
+                yield ["hist", list(seq)]
+        return
     if unit[0] == "tests":
         for outcome in range(len(OUTCOMES)):
             for prev in (0, 1):
@@ -389,6 +459,8 @@ def run_test(outcome, prev_kind, arrangement, deco):
 
 
 def run_case(case):
+    if case[0] == "hist":
+        return run_history(case[1])
     if case[0] == "msg":
         return run_msg(case[1], case[2], case[3], case[4])
     return run_test(case[1], case[2], case[3], case[4])
